@@ -45,6 +45,7 @@ FAIL_PREFIXES = (
     "possible",
     "failed",
     "requires not satisfied",
+    "unable to prove",
     "ensures not satisfied",
 )
 UNDECIDED_MARKERS = ("Resource limit", "rlimit", "timed out", "while checking this function")
